@@ -9,6 +9,7 @@ import (
 	"io"
 	"log/slog"
 	"net"
+	"net/netip"
 	"os"
 	"testing"
 	"time"
@@ -21,15 +22,19 @@ import (
 	"example.com/scion-time/driver/clocks"
 	"example.com/scion-time/net/ntp"
 
+	"github.com/scionproto/scion/pkg/addr"
+
 	"verif/internal/ev"
 	"verif/internal/netlab"
 	"verif/internal/vt"
+	"verif/internal/wire"
 )
 
 var (
-	srvAddr *net.UDPAddr
-	socks   []*net.UDPConn
-	seq     uint32
+	srvAddr   *net.UDPAddr
+	scionAddr *net.UDPAddr
+	socks     []*net.UDPConn
+	seq       uint32
 )
 
 func TestMain(m *testing.M) {
@@ -38,6 +43,8 @@ func TestMain(m *testing.M) {
 	prometheus.DefaultRegisterer = prometheus.NewRegistry()
 	srvAddr = netlab.UDPAddr(netlab.Addr(0), 12360)
 	server.StartIPServer(context.Background(), log, srvAddr, 0, nil)
+	scionAddr = netlab.UDPAddr(netlab.Addr(6), 12361)
+	server.StartSCIONServer(context.Background(), log, "", scionAddr, 0, nil)
 	for i := 0; i < 6; i++ {
 		c, err := net.ListenUDP("udp", netlab.UDPAddr(netlab.Addr(1+i%2), 0))
 		if err != nil {
@@ -90,15 +97,101 @@ func exchange(sock *net.UDPConn, req ntp.Packet) (*reply, error) {
 
 var rec = ev.New("c06/listener", "rapid sequences of requests {basic, interleaved citing the latest / an older reply to this client address, citing a reply to the other client address, unknown origin, rx field == tx field} from 6 sockets on 2 client addresses to the real IP listener (8 SO_REUSEPORT goroutines, kernel rx/tx timestamps). Relational oracle: reply receive timestamp within [send instant, receive instant] of the harness and different from the receive timestamps of the previous 7 replies to that address; a basic reply echoes the transmit field and has rx < tx <= harness receive instant; an interleaved reply (origin = request's receive field) is given only if the request cited an earlier reply to the same address with differing rx/tx fields, and carries a transmit time in (rx_k, harness receive instant of reply k]. One evaluation = one exchange. Non-trivial: sequence with an interleaved reply; distinct by sequence hash")
 
+// endp is one sender: client is the identity the listener must key its record by.
+type endp struct {
+	name, client string
+	ex           func(req ntp.Packet) (*reply, error)
+}
+
 func TestPropListener(t *testing.T) {
-	vt.Check(t, 250, 2500, func(t *rapid.T) {
+	var eps []endp
+	for _, sk := range socks {
+		sk := sk
+		eps = append(eps, endp{name: sk.LocalAddr().String(), client: sk.LocalAddr().(*net.UDPAddr).IP.String(), ex: func(req ntp.Packet) (*reply, error) { return exchange(sk, req) }})
+	}
+	listenerBody(t, eps, rec, 250, 2500)
+}
+
+var recS = ev.New("c06/listener-scion", "as c06/listener for the real SCION listener: 6 senders (own 'previous hop' sockets) for 4 client identities = {2 ISD-ASes} x {2 host addresses}, so that clients that differ only in their ISD-AS, or only in their host, cite each other's receive timestamps; requests wrapped into SCION/UDP packets over an empty or a one-segment path. Same relational oracle, with the client identity = (ISD-AS, host)")
+
+func TestPropListenerSCION(t *testing.T) {
+	ias := []addr.IA{addr.MustIAFrom(1, 0xff0000000111), addr.MustIAFrom(2, 0xff0000000222)}
+	hosts := []netip.Addr{netip.MustParseAddr("10.3.3.1"), netip.MustParseAddr("10.3.3.2")}
+	var eps []endp
+	for i := 0; i < 6; i++ {
+		hop, err := net.ListenUDP("udp", netlab.UDPAddr(netlab.Addr(3), 0))
+		if err != nil {
+			vt.Inconclusive(t, "bind: %v", err)
+		}
+		defer hop.Close()
+		ia, host := ias[i%2], hosts[i/2%2]
+		eps = append(eps, endp{name: fmt.Sprintf("%v,%v#%d", ia, host, i), client: fmt.Sprintf("%v,%v", ia, host), ex: func(req ntp.Packet) (*reply, error) { return exchangeSCION(hop, ia, host, req) }})
+	}
+	listenerBody(t, eps, recS, 150, 1500)
+}
+
+func exchangeSCION(hop *net.UDPConn, ia addr.IA, host netip.Addr, req ntp.Packet) (*reply, error) {
+	b := make([]byte, 48)
+	ntp.EncodePacket(&b, &req)
+	ps := wire.PathSpec{Kind: "empty"}
+	dstIA := ia
+	if req.TransmitTime.Fraction%2 == 1 {
+		ps = wire.PathSpec{Kind: "scion", SegLens: []int{3}, ConsDir: []bool{true}, CurrHF: 2, Seed: uint64(req.TransmitTime.Fraction)}
+		dstIA = addr.MustIAFrom(9, 0xff0000000999)
+	}
+	pth, err := ps.SlayersPath()
+	if err != nil {
+		return nil, err
+	}
+	raw, err := (&wire.Pkt{SrcIA: ia, DstIA: dstIA, Src: host, Dst: netlab.Addr(6), Path: pth, SrcPort: 5123, DstPort: uint16(scionAddr.Port), Payload: b}).Serialize(nil, nil)
+	if err != nil {
+		return nil, err
+	}
+	buf := make([]byte, 4096)
+	for attempt := 0; attempt < 4; attempt++ {
+		sent := netlab.Now()
+		if _, err := hop.WriteToUDP(raw, scionAddr); err != nil {
+			return nil, err
+		}
+		hop.SetReadDeadline(time.Now().Add(400 * time.Millisecond))
+		for {
+			n, _, err := hop.ReadFromUDP(buf)
+			if err != nil {
+				break
+			}
+			h := netlab.Now()
+			p, perr := wire.Parse(buf[:n])
+			if perr != nil || !p.IsUDP {
+				continue
+			}
+			var rsp ntp.Packet
+			if ntp.DecodePacket(&rsp, p.UDP.Payload) != nil {
+				continue
+			}
+			if rsp.OriginTime != req.TransmitTime && rsp.OriginTime != req.ReceiveTime {
+				continue
+			}
+			if d, _ := p.DstAddr(); p.SCION.DstIA != ia || d != host {
+				return nil, fmt.Errorf("reply addressed to %v,%v instead of %v,%v", p.SCION.DstIA, d, ia, host)
+			}
+			r := &reply{client: fmt.Sprintf("%v,%v", ia, host), sent: sent, h: h, req: req, rsp: rsp}
+			r.rx = ntp.TimeFromTime64(rsp.ReceiveTime, h)
+			r.tx = ntp.TimeFromTime64(rsp.TransmitTime, h)
+			return r, nil
+		}
+	}
+	return nil, fmt.Errorf("no reply after 4 attempts")
+}
+
+func listenerBody(t *testing.T, eps []endp, rec *ev.Recorder, nq, nth int) {
+	vt.Check(t, nq, nth, func(t *rapid.T) {
 		var hist []*reply
 		var log []string
 		nInter := 0
 		n := rapid.IntRange(1, 25).Draw(t, "n")
 		for i := 0; i < n; i++ {
-			sock := rapid.SampledFrom(socks).Draw(t, "sock")
-			client := sock.LocalAddr().(*net.UDPAddr).IP.String()
+			ep := rapid.SampledFrom(eps).Draw(t, "sender")
+			client := ep.client
 			var mine, others []*reply
 			for _, r := range hist {
 				if r.client == client {
@@ -133,11 +226,11 @@ func TestPropListener(t *testing.T) {
 			if kind == "il-rx-eq-tx" {
 				req.ReceiveTime = req.TransmitTime
 			}
-			r, err := exchange(sock, req)
+			r, err := ep.ex(req)
 			if err != nil {
 				t.Fatalf("well-formed request not answered: %v (history %v)", err, log)
 			}
-			log = append(log, fmt.Sprintf("%s from %s -> origin-is-rx-field=%v", kind, sock.LocalAddr(), r.rsp.OriginTime == req.ReceiveTime))
+			log = append(log, fmt.Sprintf("%s from %s -> origin-is-rx-field=%v", kind, ep.name, r.rsp.OriginTime == req.ReceiveTime))
 			if r.rsp.Version() != 4 || r.rsp.Mode() != ntp.ModeServer || r.rsp.Stratum != 1 {
 				t.Fatalf("reply is not v4/server/stratum 1")
 			}
